@@ -15,6 +15,16 @@ some rows of some evaluations and none of others, so the evaluations that surviv
 learners / evaluators.  After it the invariants are asserted (rows kept are rows of the input in their order, cell for cell;
 no dangling id; no parameter row left without an interaction when the input had none), and the chain goes on from there.
 
+Histories on ONE object are part of the input space: a notebook asks the same Result raw_learners(x='index'), then raw_learners(x=<parameter>),
+then where_fin(...), ...  About 45% of the raw_learners steps are runs of 2-3 questions to the same object (mostly the same (l, p), the kind of x
+alternating, spans differing) and ~10% of the where_fin steps are preceded by other questions whose answers are thrown away.  Every answer is
+compared with the history-free reference; an alarm on an object that was asked something before is repeated on a newly built object (same rows,
+same chain): when it passes there, the signature names the earlier question (raw_learners/x=parameter/same-result-asked-before=raw_learners(x=index)/...).
+
+where_fin with only l or only p: the other one is the default of the statement (every learner / environments); such a call is asserted like the
+call with the default written out, and an alarm that disappears when it is written out is reported as where_fin/{l|p}-default/mode=...
+where_fin(n) alone on a Result that holds never-evaluated learners / environments must not leave their parameter rows behind.
+
 Column NAMES are part of the input space: in ~40% of the cases parameter columns carry names that contain / start with /
 end with / are a prefix of / differ only by case from the names coba itself tests for ('index', 'reward', the three ids,
 'full_name', 'family', the 'x' column of raw_learners, the second y column), and l / p / x name these columns.  The reference
@@ -29,7 +39,9 @@ RULE  = ("seeded Results (1-6 environments, 1-5 learners, 1-3 evaluators; missin
          "pattern x parameter-value kinds incl. duplicates, unsortable mixes, tuples, None/Missing, frozensets) built "
          "through Result(rows), Result(Tables), TransactionResult or a real Experiment, then a seeded chain of "
          "where (ids, parameter columns, or interaction columns index/reward/extra by value, list, range, set operator, predicate) "
-         "/ where_best / where_fin(n,l,p) / raw_learners(x,y,l,p,span) on the real object; one case = one "
+         "/ where_best / where_fin(n,l,p; also only l, only p, only n) / raw_learners(x,y,l,p,span) on the real object, with runs of 2-3 questions "
+         "to the same object (same l,p, index <-> parameter x; where_fin preceded by discarded questions) and learners / environments that were "
+         "never evaluated; one case = one "
          "oracle evaluation of where_fin, raw_learners or moving_average; distinct & non-trivial = distinct (operation, "
          "sizes, missing pattern, length pattern, l/p/n/x/span class, value kinds, chain prefix, (role, special name, relation) of "
          "parameter columns named like 'index'/'reward'/ids/'full_name' (shuffle_index, INDEX, learner, reward2, ...)) with >= 2 learners and "
@@ -45,12 +57,22 @@ REQUIRED = ["oracle.where_fin", "oracle.where_fin.exact", "oracle.where_fin.grou
             "oracle.raw_learners", "oracle.raw_learners.index", "oracle.raw_learners.param-x", "oracle.raw_learners.cells",
             "oracle.where_fin.near-special-name", "oracle.raw_learners.near-special-name-x", "oracle.raw_learners.near-special-name-x.ragged",
             "oracle.raw_learners.near-index-name-x.ragged", "oracle.raw_learners.near-special-name-lp",
+            "oracle.raw_learners.asked-before", "oracle.raw_learners.asked-before.same-lp-other-x-kind.ragged.index-after-parameter",
+            "oracle.raw_learners.asked-before.same-lp-other-x-kind.ragged.parameter-after-index", "oracle.where_fin.asked-before",
+            "oracle.where_fin.l-default", "oracle.where_fin.p-default", "oracle.integrity.after-where_fin.no-pairing.input-unreferenced",
+            "oracle.integrity.after-where_fin.no-pairing.input-unreferenced.n=int.nothing-dropped",
+            "oracle.integrity.after-where_fin.no-pairing.input-unreferenced.n=min.nothing-dropped",
             "oracle.moving_average", "oracle.moving_average.sliding", "oracle.moving_average.exp",
             "oracle.moving_average.weighted", "build.experiment", "build.transactions"]
 ASSUMPTIONS = [
-    "l and p are always given explicitly to where_fin / raw_learners (the statement's 'by default' pairing is not asserted); "
-    "where_fin(n) alone is only checked for lengths, unchanged values and preserved referential integrity",
-    "ids are ints; an evaluation's index column is 1..N at construction (what experiments write); chains use where() on ids / "
+    "raw_learners is always given l and p; where_fin with only one of l / p said is held to the statement's defaults (compared levels: "
+    "every learner = 'learner_id'; pairing groups: environments = 'environment_id'); where_fin(n) with neither (coba pairs nothing then, "
+    "its own tests pin that) is checked for lengths, unchanged values, no dangling id and -- whether or not the input already held "
+    "never-evaluated learners / environments -- no parameter row left unreferenced; where_fin() that asks for nothing is not generated",
+    "a Result is asked several questions one after the other (raw_learners with the other kind of x / another span, where_fin whose answer "
+    "is thrown away): every asserted answer is compared with the same history-free reference, so nothing is demanded of the order",
+    "ids are ints; an evaluation's index column is 1..N at construction (what experiments and the log reader write; a hand-made Result whose "
+    "index starts at 0 or has holes is not generated: coba cuts by index value and the statement does not say what 'length' is there); chains use where() on ids / "
     "parameter columns with =, !=, in, on index with <=, and on interaction columns (index, reward, extra) with a value, a list, "
     "=, !=, <, <=, >, >=, in, !in or a predicate; the latter can leave evaluations whose index column is no longer 1..N: from "
     "then on where_fin with n given is only checked for the invariants (surviving rows are input rows, cell for cell; no dangling "
@@ -209,8 +231,21 @@ def gen_ops(rng, cols, eids, lids, vids, lengths, pools, ycols=None):
             return {"op": "where", "kw": {c: {rng.choice(["=", "!="]): rng.choice(vs)}}}
     def fin_op():
         l, p = gen_lp(rng, cols, nv, .25)
-        if rng.random() < .06: return {"op": "where_fin", "n": gen_n(rng, lengths) or "min", "l": None, "p": None}
-        return {"op": "where_fin", "n": gen_n(rng, lengths), "l": l, "p": p, "alias": rng.random() < .3}
+        r = rng.random()
+        if r < .09: return {"op": "where_fin", "n": gen_n(rng, lengths) or "min", "l": None, "p": None}
+        op = {"op": "where_fin", "n": gen_n(rng, lengths), "l": l, "p": p, "alias": rng.random() < .3}
+        if r < .19:                                      # only one of the two is said: the other one is the default of the statement
+            if rng.random() < .5: op["p"] = None         # "by default environments"
+            else:                 op["l"] = None         # "by default every learner"
+        elif r < .30:                                    # the same object is asked something else first (the answer is thrown away)
+            op["before"] = [other_question(op["l"], op["p"]) for _ in range(rng.choice([1, 1, 2]))]
+        return op
+    def other_question(l, p):
+        """another where_fin / raw_learners question, mostly about the same (l, p)"""
+        if rng.random() < .3: l, p = gen_lp(rng, cols, nv, .5)
+        if rng.random() < .5: return {"op": "where_fin", "n": gen_n(rng, lengths), "l": l, "p": p}
+        x = "index" if rng.random() < .5 else rng.choice(cols["env"])
+        return {"op": "raw_learners", "x": x, "y": "reward", "l": l, "p": p, "span": rng.choice([None, 1, 2])}
     def best_op():
         l = rng.choice([c for c in cols["lrn"] if c != "learner_id"] or ["learner_id"])
         p = rng.choice(cols["env"])
@@ -225,12 +260,27 @@ def gen_ops(rng, cols, eids, lids, vids, lengths, pools, ycols=None):
         else:         x = rng.choice(cols["lrn"] + cols["val"])
         span = rng.choice([None, None, 1, 2, 3, 5, 40])
         return {"op": "raw_learners", "x": x, "y": rng.choice(["reward", "reward", "extra"]), "l": l, "p": p, "span": span}
+    def raw_ops():
+        """one question, or several questions to the SAME Result object one after the other (what a notebook does): mostly the same
+        (l, p) and the other kind of x (interaction index <-> parameter columns), so that whatever one answer leaves behind on the object
+        (memoised finishing step, cached groups, ...) is what the next question would find"""
+        first = raw_op()
+        out = [first]
+        if rng.random() < .45:
+            for _ in range(rng.choice([1, 1, 2])):
+                nxt = raw_op()
+                if rng.random() < .75:
+                    nxt["l"], nxt["p"] = first["l"], first["p"]
+                    if (out[-1]["x"] == "index") == (nxt["x"] == "index") and rng.random() < .8:
+                        nxt["x"] = rng.choice(cols["env"]) if out[-1]["x"] == "index" else "index"
+                out.append(nxt)
+        return out
     for _ in range(rng.choice([0, 0, 0, 1, 1, 2])):
         r = rng.random()
         ops.append(where_op() if r < .55 else best_op() if r < .75 else fin_op())
-    if rng.random() < .6: ops.append(raw_op())
+    if rng.random() < .6: ops.extend(raw_ops())
     ops.append(fin_op())
-    if rng.random() < .25: ops.append(rng.choice([fin_op, raw_op])())
+    if rng.random() < .25: ops.extend(rng.choice([lambda: [fin_op()], raw_ops])())
     return ops
 
 def gen_ma(rng):
@@ -285,6 +335,11 @@ def gen_case(rng):
                 elif pattern == "sparse-env":     ok = (e != eids[-1]) or rng.random() < .4
                 else:                             ok = (eids.index(e) % max(1, min(2, nL))) == (lids.index(l) % max(1, min(2, nL)))
                 if ok: present.append((e, l, v))
+    idle = []
+    if rng.random() < .22:            # a learner and / or an environment that was never evaluated at all (failed everywhere, never loaded): its
+        if nL >= 2 and rng.random() < .7: idle.append((1, rng.choice(lids)))          # parameter row is in the log, no interaction refers to it
+        if nE >= 2 and (not idle or rng.random() < .4): idle.append((0, rng.choice(eids)))
+        present = [t for t in present if all(t[k] != i for k, i in idle)]
     lpat = rng.choice(["equal", "equal", "one-short", "two-values", "ragged", "ragged", "ragged-zero"])
     base = rng.choice([1, 2, 3, 4, 6, 10, 30]); alt = rng.choice([1, 2, 3, 5, 8])
     rk = rng.choice(["binary", "unit", "real"])
@@ -297,7 +352,7 @@ def gen_case(rng):
         elif lpat == "ragged":     n = rng.randint(1, 12)
         else:                      n = rng.choice([0, 0, 1, 2, 3, 7, 30])
         evals.append([e, l, v, gen_rewards(rng, n, rk), gen_rewards(rng, n, "unit")])
-    orphans = rng.random() < .5       # parameter rows for ids that were never evaluated (what an experiment log holds)
+    orphans = bool(idle) or rng.random() < .5       # parameter rows for ids that were never evaluated (what an experiment log holds)
     order = rng.random() < .5         # shuffled row order at construction
     cols = {"env": envs["cols"], "lrn": lrns["cols"], "val": vals["cols"], "focus": focus}
     lengths = sorted({len(ev[3]) for ev in evals if ev[3]})
@@ -340,6 +395,7 @@ def rename_spec(spec, mapping):
         for k in ("l", "p", "x"):
             if k in op: op[k] = g(op[k])
         if "kw" in op: op["kw"] = {f(c): a for c, a in op["kw"].items()}
+        if "before" in op: op["before"] = [dict(q, **{k: g(q[k]) for k in ("l", "p", "x") if k in q}) for q in op["before"]]
         ops.append(op)
     out["ops"] = ops
     return out
@@ -656,6 +712,36 @@ def int_where_cols(state, op):
     par = set(state.cols["env"]) | set(state.cols["lrn"]) | set(state.cols["val"])
     return [c for c in op["kw"] if c not in par and c in state.icols]
 
+def eff_lp(op):
+    """the (l, p) a where_fin call means: when only one of the two is said the other one is the statement's default
+    ("pairing groups (by default environments) ... every compared level (by default every learner)"); neither said: no pairing"""
+    l, p = op.get("l"), op.get("p")
+    if l is None and p is None: return None, None
+    return ("learner_id" if l is None else l), ("environment_id" if p is None else p)
+
+def dflt_flag(op):
+    if op["op"] != "where_fin" or (op.get("l") is None) == (op.get("p") is None): return ""
+    return "/l-default" if op.get("l") is None else "/p-default"
+
+def _q_cls(q):
+    """class of a question a Result object was asked: which operation and, for raw_learners, which kind of x"""
+    if q["op"] == "raw_learners": return "raw_learners(x=" + ("index" if q["x"] == "index" else "parameter") + ")"
+    return f"where_fin(n={_cls_n(q['n'])})"
+
+def ask(R, q):
+    """asks the question and throws the answer away (whatever it is, also an exception)"""
+    try:
+        if q["op"] == "raw_learners": R.raw_learners(x=q["x"], y=q["y"], l=q["l"], p=q["p"], span=q["span"])
+        else: R.where_fin(q["n"], q["l"], q["p"])
+    except Exception: pass
+
+def fresh_result(spec, applied):
+    """the Result an operation is applied to, built anew: same rows, same transformations (`applied`: their positions in the chain), but an
+    object nobody asked anything"""
+    R = build(spec)
+    for i in applied: R = apply_op(R, spec["ops"][i])
+    return R
+
 def apply_op(R, op):
     k = op["op"]
     if k == "where":
@@ -665,7 +751,11 @@ def apply_op(R, op):
             j = list(R.interactions.columns).index(c)
             return R.filter_int(lambda row: f(row[j]))
         return R.where(**kw)
-    if k == "where_fin":  return (R.filter_fin if op.get("alias") else R.where_fin)(op["n"], op["l"], op["p"])
+    if k == "where_fin":
+        f = R.filter_fin if op.get("alias") else R.where_fin
+        if op["l"] is None and op["p"] is not None: return f(op["n"], p=op["p"])      # the argument left out, not passed as None
+        if op["p"] is None and op["l"] is not None: return f(op["n"], l=op["l"])
+        return f(op["n"], op["l"], op["p"])
     if k == "where_best": return R.where_best(op["l"], op["p"], n=op["n"])
     raise ValueError(k)
 
@@ -688,9 +778,31 @@ def _cls_n(n): return "none" if n is None else "min" if n == "min" else "int"
 
 # ------------------------------------------------------------------------------------------ the checker
 def check_case(spec, ctx=None):
-    viol, opv = _check(spec, ctx)
+    viol, opv = _check2(spec, ctx)
     if opv and spec.get("names"): opv = flag_names(spec, opv)
     return viol + [(a, b) for _, a, b in opv]
+
+def _check2(spec, ctx=None):
+    viol, opv = _check(spec, ctx)
+    return viol, flag_defaults(spec, opv)
+
+def flag_defaults(spec, opv):
+    """a violation of a where_fin that leaves l or p to its default: the same chain is run with the default written out
+    (l='learner_id' / p='environment_id').  When that passes the mechanism is the default itself and there is one signature per failure
+    mode (where_fin/p-default/mode=raise:TypeError, .../mode=differs-from-default-written-out); otherwise the default has nothing to
+    do with it and the signature is the one the explicit call has"""
+    out = []
+    for i, sig, what in opv:
+        op = spec["ops"][i]
+        d = dflt_flag(op)
+        if not d or d not in sig: out.append((i, sig, what)); continue
+        l, p = eff_lp(op)
+        sp = dict(spec, ops=spec["ops"][:i] + [dict(op, l=l, p=p)], ma=[])
+        if any(j == i for j, _, _ in _check(sp, None)[1]): out.append((i, sig.replace(d, "", 1), what)); continue
+        mode = sig.rpartition("/mode=")[2]
+        out.append((i, f"where_fin{d}/mode=" + (mode if mode.startswith("raise:") else "differs-from-default-written-out"),
+                    what + f"  [{sig}; where_fin({op['n']!r},{l!r},{p!r}) with the default written out is right]"))
+    return out
 
 def _check(spec, ctx=None):
     """-> (violations of moving_average [(sig, what)], violations of the operations on the Result [(index of the operation, sig, what)])"""
@@ -738,12 +850,26 @@ def _check(spec, ctx=None):
     n_e = len({ev[0] for ev in state.evals}); n_l = len({ev[1] for ev in state.evals})
     prefix = []
     opv = []                             # (index of the operation, sig, what)
+    asked = []                           # what the object R has been asked so far (questions leave the object as it is -- or should)
+    applied = []                         # positions of the transformations that led to R
+    def absent(q, known):
+        named = [c for k in ("l", "p", "x") if q.get(k) is not None for c in ([q[k]] if isinstance(q[k], str) else q[k])]
+        return any(c not in known for c in named) or any(c not in known and c not in state.icols for c in q.get("kw", {})) or ("y" in q and q["y"] not in state.icols)
+    def on_fresh(i_op, op, sig, asked, recheck):
+        """an alarm on an object that was asked something before: does the same call on a newly built object pass?  Then the history is the
+        mechanism and the signature says after which kind of question (the first earlier question that does it on its own) the answer is wrong"""
+        try:
+            if any(a == sig for a, _ in recheck(fresh_result(spec, applied))): return None
+            for q in asked:
+                F = fresh_result(spec, applied); ask(F, q)
+                if any(a == sig for a, _ in recheck(F)): return _q_cls(q)
+        except Exception: return None
+        return "several-questions"
     for i_op, op in enumerate(spec["ops"]):
         kind = op["op"]
         chained = bool(prefix)
         known = set(state.cols["env"]) | set(state.cols["lrn"]) | set(state.cols["val"]) | {"full_name", "index"}
-        named = [c for k in ("l", "p", "x") if op.get(k) is not None for c in ([op[k]] if isinstance(op[k], str) else op[k])]
-        if any(c not in known for c in named) or any(c not in known and c not in state.icols for c in op.get("kw", {})) or ("y" in op and op["y"] not in state.icols):
+        if absent(op, known):
             note("skipped.column-absent"); continue     # e.g. a parameter no loaded row carries
         gaps = index_gaps(state)                        # an earlier where on an interaction column left indexes other than 1..N
         icols = int_where_cols(state, op)
@@ -751,22 +877,36 @@ def _check(spec, ctx=None):
         if kind == "raw_learners":
             if gaps and op["x"] == "index":             # 'length' and the x axis are not defined by the statement there
                 note("skipped.raw_learners-index-not-1..N"); continue
-            v = check_raw(R, state, op, prefix, meta, n_e, n_l, ctx, note)
+            v = check_raw(R, state, op, prefix, meta, n_e, n_l, ctx, note, asked)
+            if v and asked:
+                out = []
+                for a, b in v:
+                    after = on_fresh(i_op, op, a, asked, lambda F: check_raw(F, state, op, prefix, meta, n_e, n_l, None, lambda *_: None, []))
+                    xk = "index" if op["x"] == "index" else "parameter"
+                    out.append((a, b) if after is None else (f"raw_learners/x={xk}/same-result-asked-before={after}/mode=" + a.rpartition("/mode=")[2],
+                                b + f"  [{a}; the same call on a newly built Result (same rows, same chain) gives the right answer; this object was asked {[_q_cls(q) for q in asked]} before]"))
+                v = out
             opv.extend((i_op, a, b) for a, b in v)
+            asked.append(op)
             continue
         # ------------------------------------------------------------------ transformations
+        if kind == "where_fin":
+            for q in op.get("before", []):              # the object is asked something else first; what it answers does not matter here
+                if absent(q, known): continue
+                ask(R, q); asked.append(q)
+        dflt = dflt_flag(op)
         try:
             R2 = apply_op(R, op)
         except Exception as e:
             if kind == "where_fin":
-                oc = key_order_class(state, op["l"], op["p"]) if op["l"] is not None else "total"
+                oc = key_order_class(state, *eff_lp(op)) if (op["l"] is not None or op["p"] is not None) else "total"
                 flags = "".join(f"/{f}" for f in ([oc] if oc != "total" else []) + (["empty-result"] if not state.evals else []))
-                opv.append((i_op, f"where_fin/n={_cls_n(op['n'])}{flags}/mode=raise:{type(e).__name__}", f"where_fin({op['n']!r},{op['l']!r},{op['p']!r}) raised {type(e).__name__}: {e}"))
+                opv.append((i_op, f"where_fin{dflt}/n={_cls_n(op['n'])}{flags}/mode=raise:{type(e).__name__}", f"where_fin({op['n']!r},{op['l']!r},{op['p']!r}) raised {type(e).__name__}: {e}"))
             else: note(f"skipped.{kind}-raised")
             break
         st2 = extract(R2)
         note("oracle.integrity"); note(f"oracle.integrity.after-{kind}")
-        klabel = kind + ("/on=interaction-column" if icols else "")
+        klabel = kind + dflt + ("/on=interaction-column" if icols else "")
         if icols:
             # rows are selected inside the evaluations: some evaluations keep a part of their rows, others none at all
             note("oracle.integrity.after-where.interaction-column")
@@ -787,25 +927,45 @@ def _check(spec, ctx=None):
         dangling2, unref2 = integrity(st2)
         if dangling2:
             opv.append((i_op, f"{klabel}/integrity/mode=dangling-{'+'.join(dangling2)}-id", f"after {kind} {op} interaction rows reference ids absent from {dangling2}")); break
-        explicit = kind == "where_fin" and op["l"] is not None
+        explicit = kind == "where_fin" and (op["l"] is not None or op["p"] is not None)
+        n_only   = kind == "where_fin" and not explicit          # where_fin(n): no pairing, lengths only
         lengths_unspecified = kind == "where_fin" and op["n"] is not None and gaps
-        if unref2 and (consistent or explicit):
-            opv.append((i_op, f"{klabel}/integrity/mode=unreferenced-{'+'.join(unref2)}-row" + ("" if explicit else "/input-consistent") + ("/index-not-1..N" if lengths_unspecified else ""),
+        if n_only and not consistent:
+            # "where_fin ... leaves the four tables mutually consistent ... every parameter row is referenced" -- also when nothing had to be
+            # dropped or cut and the input held rows of learners / environments that were never evaluated (what an experiment log holds)
+            note("oracle.integrity.after-where_fin.no-pairing.input-unreferenced")
+            if set(st2.evals) == set(state.evals):          # no evaluation was dropped: the only thing to prune are the rows nobody referred to
+                note(f"oracle.integrity.after-where_fin.no-pairing.input-unreferenced.n={_cls_n(op['n'])}.nothing-dropped")
+        if unref2 and (consistent or explicit or n_only):
+            which = "parameter" if n_only and not consistent else "+".join(unref2)      # one mechanism (nothing dropped: nothing pruned), one signature
+            opv.append((i_op, f"{klabel}" + ("/no-pairing" if n_only and not consistent else "") + f"/integrity/mode=unreferenced-{which}-row" +
+                         ("" if explicit else "/input-consistent" if consistent else "/input-unreferenced") + ("/index-not-1..N" if lengths_unspecified else ""),
                          f"after {kind} {op} the {unref2} table holds rows no interaction refers to")); break
         if lengths_unspecified:
             # n after a where that left indexes other than 1..N: the statement does not say what the 'length' of such an evaluation is;
             # the integrity of the four tables (above) is asserted all the same
             note("oracle.where_fin.index-not-1..N-lengths-unasserted")
+            if R2 is not R: asked = []
             R, state = R2, st2
+            applied.append(i_op)
             consistent = not unref2
             prefix.append(kind)
             n_e = len({ev[0] for ev in state.evals}); n_l = len({ev[1] for ev in state.evals})
             continue
         if kind == "where_fin":
-            v = check_fin(state, st2, op, prefix, meta, n_e, n_l, ctx, note)
+            v = check_fin(state, st2, op, prefix, meta, n_e, n_l, ctx, note, asked)
+            if v and asked:
+                out = []
+                for a, b in v:
+                    after = on_fresh(i_op, op, a, asked, lambda F: check_fin(state, extract(apply_op(F, op)), op, prefix, meta, n_e, n_l, None, lambda *_: None, []))
+                    out.append((a, b) if after is None else (f"where_fin/same-result-asked-before={after}/mode=" + a.rpartition("/mode=")[2],
+                                b + f"  [{a}; the same call on a newly built Result gives the right answer; this object was asked {[_q_cls(q) for q in asked]} before]"))
+                v = out
             opv.extend((i_op, a, b) for a, b in v)
             if v: break
+        if R2 is not R: asked = []
         R, state = R2, st2
+        applied.append(i_op)
         consistent = not unref2
         prefix.append("where-int" if icols else kind)
         n_e = len({ev[0] for ev in state.evals}); n_l = len({ev[1] for ev in state.evals})
@@ -819,7 +979,7 @@ def flag_names(spec, opv):
     memo = {}
     def sigs(keep):           # signatures of the case in which only the columns `keep` still carry their special-looking names
         k = tuple(sorted(keep))
-        if k not in memo: memo[k] = {(j, a) for j, a, _ in _check(neutral_spec(spec, set(spec["names"]) - set(keep)), None)[1]}
+        if k not in memo: memo[k] = {(j, a) for j, a, _ in _check2(neutral_spec(spec, set(spec["names"]) - set(keep)), None)[1]}
         return memo[k]
     out = []
     for i, sig, what in opv:
@@ -871,16 +1031,25 @@ def diff_fin(before, got, exp, info, oc, n, l, p, call):
             return [(f"where_fin/n={_cls_n(n)}/mode=wrong-length", f"{call}: evaluation {ev} has {len(rows)} rows, expected {len(exp[ev])} (input lengths {lens})")]
     return []
 
-def check_fin(before, after, op, prefix, meta, n_e, n_l, ctx, note):
-    n, l, p = op["n"], op["l"], op["p"]
+def check_fin(before, after, op, prefix, meta, n_e, n_l, ctx, note, asked=()):
+    v = _check_fin(before, after, op, prefix, meta, n_e, n_l, ctx, note, asked)
+    dflt = dflt_flag(op)             # only one of l / p was said: the signature names the one that was left to its default
+    return [(a.replace("where_fin/", f"where_fin{dflt}/", 1), b) for a, b in v] if dflt else v
+
+def _check_fin(before, after, op, prefix, meta, n_e, n_l, ctx, note, asked=()):
+    n = op["n"]
+    l, p = eff_lp(op)
     exp, info = ref_where_fin(before, n, l, p)
     oc = key_order_class(before, l, p) if l is not None else "total"
     nk = _cls_names(meta, op)
+    dflt = dflt_flag(op)
+    if dflt: note("oracle.where_fin" + dflt.replace("/", "."))
+    if asked: note("oracle.where_fin.asked-before")
     if nk:
         note("oracle.where_fin.near-special-name")
         for k, tok, rel in nk: note(f"names.where_fin.{k}~{tok}")
     if ctx:
-        ctx.case(("fin", nk, _cls_n(n), _cls_cols(l), _cls_cols(p), min(n_e, 4), min(n_l, 4), meta["pattern"], meta["lpat"], oc,
+        ctx.case(("fin", nk, _cls_n(n), _cls_cols(l), _cls_cols(p), dflt, tuple(sorted({_q_cls(q) for q in asked})), min(n_e, 4), min(n_l, 4), meta["pattern"], meta["lpat"], oc,
                   info["dup_level_group"], info["dropped_groups"] > 0, info["truncated"] > 0, info["short_dropped"] > 0, tuple(prefix),
                   meta["ekinds"].get("data"), meta["lkinds"].get("lr")),
                  nontrivial=n_e >= 2 and n_l >= 2)
@@ -892,7 +1061,7 @@ def check_fin(before, after, op, prefix, meta, n_e, n_l, ctx, note):
     if info["truncated"]: note("oracle.where_fin.truncated")
     if info["short_dropped"]: note("oracle.where_fin.short-dropped")
     if oc != "total": note("oracle.where_fin." + oc)
-    call = f"where_fin({n!r},{l!r},{p!r})"
+    call = f"where_fin({n!r},{op['l']!r},{op['p']!r})"
     got = after.evals
     if l is None:
         # n alone: lengths only (survivors are input evaluations of length >= n, cut to n)
@@ -919,7 +1088,7 @@ def check_fin(before, after, op, prefix, meta, n_e, n_l, ctx, note):
     note("oracle.where_fin.exact")
     return diff_fin(before, got, exp, info, oc, n, l, p, call)
 
-def check_raw(R, state, op, prefix, meta, n_e, n_l, ctx, note):
+def check_raw(R, state, op, prefix, meta, n_e, n_l, ctx, note, asked=()):
     from coba.exceptions import CobaException
     x, y, l, p, span = op["x"], op["y"], op["l"], op["p"], op["span"]
     xk = "index" if x == "index" else _cls_cols(x)
@@ -930,9 +1099,20 @@ def check_raw(R, state, op, prefix, meta, n_e, n_l, ctx, note):
     oc = key_order_class(state, l, p)
     nk = _cls_names(meta, op)
     if ctx:
-        ctx.case(("raw", nk, xk, sk, _cls_cols(l), _cls_cols(p), min(n_e, 4), min(n_l, 4), meta["pattern"], meta["lpat"], oc, info["dup_level_group"],
+        ctx.case(("raw", nk, xk, sk, _cls_cols(l), _cls_cols(p), tuple(sorted({_q_cls(q) + ("/same-lp" if (q["l"], q["p"]) == (l, p) else "") for q in asked})),
+                  min(n_e, 4), min(n_l, 4), meta["pattern"], meta["lpat"], oc, info["dup_level_group"],
                   info["dropped_groups"] > 0, info["truncated"] > 0, tuple(prefix)), nontrivial=n_e >= 2 and n_l >= 2 and bool(exp_evals))
     note("oracle.raw_learners")
+    if asked:
+        # this very object answered other questions before; a Result does not change, so the answer must be the one a new object gives
+        note("oracle.raw_learners.asked-before")
+        other = [q for q in asked if q["op"] == "raw_learners" and (q["l"], q["p"]) == (l, p) and (q["x"] == "index") != (x == "index")]
+        if other:
+            note("oracle.raw_learners.asked-before.same-lp-other-x-kind")
+            complete = ref_where_fin(state, None, l, p)[0]
+            if len({len(rows) for rows in complete.values()}) > 1:     # cut to the shortest for x='index', whole evaluations for a parameter x
+                note("oracle.raw_learners.asked-before.same-lp-other-x-kind.ragged")
+                note("oracle.raw_learners.asked-before.same-lp-other-x-kind.ragged." + ("index-after-parameter" if x == "index" else "parameter-after-index"))
     # first the finishing step on its own, so that an alarm names the right mechanism
     try:
         fin = extract(R._filter_fin(fin_n, l, p))
